@@ -15,17 +15,22 @@ func init() { register("C20", checkC20) }
 // C20 — concurrent use of bloom.Filter; immutability of gcs.Filter.
 //
 // C20.guarded  every access to the guarded state of bloom.Filter (all fields
-//              that are not the mutex, and everything reached through them)
-//              happens with the filter's mutex held, on every path.
+//
+//	that are not the mutex, and everything reached through them)
+//	happens with the filter's mutex held, on every path.
+//
 // C20.section  every exported method is one critical section: the lock is
-//              released on every return, never acquired twice, never
-//              re-acquired after a release.
+//
+//	released on every return, never acquired twice, never
+//	re-acquired after a release.
+//
 // C20.reentry  no call of a function that acquires the lock while it is held.
 // C20.gcs      methods of gcs.Filter write nothing reachable from the receiver;
-//              the stored data slice is freshly allocated at construction.
+//
+//	the stored data slice is freshly allocated at construction.
 func checkC20(p *Program, r *Report) {
 	r.Explain = "Lockset analysis over all paths of every function that touches bloom.Filter's guarded state " +
-		"(C20.guarded), critical-section shape of every exported method (C20.section), no re-entrant acquisition " +
+		"(C20.guarded), every unexported helper that requires the lock is only called with it held, in the mode it needs (C20.required), critical-section shape of every exported method (C20.section), no re-entrant acquisition " +
 		"(C20.reentry), and an effect analysis showing gcs.Filter methods never write receiver-reachable memory " +
 		"(C20.gcs). Covers all interleavings because mutual exclusion of every access is established per path; " +
 		"does not decide use of the *wire.MsgFilterLoad after it was handed out by MsgFilterLoad() or handed in by " +
@@ -549,6 +554,7 @@ func checkC20(p *Program, r *Report) {
 	}
 	r.Floor("C20.guarded", 20)
 	r.Floor("C20.section", 10)
+	r.Floor("C20.reentry", 6)
 
 	checkC20gcs(p, r)
 }
